@@ -13,6 +13,18 @@ From BB Require Import BN Brute SpaceFacts TrapFacts PercolateFacts AttractorFac
   Strict PetriNet Control Meta FilterFacts PetriNetFacts TrappistFacts DiagramStruct DiagramSem1 DiagramCache
   DiagramDepth DiagramComplete Termination ControlFacts MetaFacts Candidates StrictFacts MinExpandFacts CandidatesFacts SymbolicTest SymbolicTestFacts Signed ReductionFacts ControlFacts2 Main Blocks BlocksFacts ObsFacts OwnerFacts CandidatesTerm
   PartialOwner BlockMath BlockComplete ASeeds ASeedsFacts LogChecks SkipRule SkipRuleFacts Names NamesFacts Perm PermFacts SCC SCCFacts SCCStruct ControlFacts3 SCCTerm FilterSym Main2 StrategyFacts ControlFacts4 SkipRuleFacts2 SCCComplete SCCAttr BlockComplete2 ControlFacts5 Iso SkipSem ControlFacts6.
+From BB Require Import PetriNet PySrcClingo PySrcClingoFacts.
+
+(* translator tie for the answer-set readers of trappist_core.py (PySrcClingo.v: loops checked statement by statement, the stored polarity read from the text): on a conflict-free model the dict returned by _clingo_model_to_space is the model's space_of_model (INVERTED polarity: a true atom b1_v fixes v to 0) ... *)
+Theorem C09_source_clingo_model_to_space : forall (n : nat) (atoms : list (nat * bool)), NoDup (map fst atoms) -> exists kv : list (nat * bool), py_clingo_model_to_space atoms = Some kv /\ (forall v : nat, v < n -> kv_lookup kv v = nth v (space_of_model n (model_of_atoms atoms)) None).
+Proof. exact py_clingo_model_to_space_spec. Qed.
+
+(* ... and the one returned by _clingo_model_to_fixed_point is state_of_model (direct polarity) *)
+Theorem C09_source_clingo_model_to_fixed_point : forall (n : nat) (atoms : list (nat * bool)), NoDup (map fst atoms) -> (forall v : nat, v < n -> In v (map fst atoms)) -> exists kv : list (nat * bool), py_clingo_model_to_fixed_point atoms = Some kv /\ (forall v : nat, v < n -> kv_lookup kv v = Some (nth v (state_of_model n (model_of_atoms atoms)) false)).
+Proof. exact py_clingo_model_to_fixed_point_spec. Qed.
+
+Theorem C09_source_clingo_model_conflict_asserts : forall v : nat, py_clingo_model_to_space [(v, true); (v, false)] = None.
+Proof. exact py_clingo_model_to_space_conflict. Qed.
 
 (* models = trap spaces inside ensure and not inside an avoided space *)
 Theorem C09_trap_program_min : forall (N : net) (pn : pnet) (ensure : list (option bool)) (avoid : list (list (option bool))) (srcs : list nat) (S : list (option bool)), let n := nvars N in pn_wf n pn -> pn_faithful N pn -> length ensure = n -> (forall a : list (option bool), In a avoid -> length a = n) -> length S = n -> is_model (model_of_space S) (trap_program PMin false pn ensure avoid srcs) = true <-> trap_space N S /\ subspace S ensure = true /\ forallb (fun a : space => negb (subspace S a)) avoid = true.
@@ -51,6 +63,9 @@ Proof. exact deadlock_program_models_are_states. Qed.
 Theorem C09_space_model_roundtrip : forall S : list (option bool), space_of_model (length S) (model_of_space S) = S.
 Proof. exact space_model_roundtrip. Qed.
 
+Print Assumptions C09_source_clingo_model_to_space.
+Print Assumptions C09_source_clingo_model_to_fixed_point.
+Print Assumptions C09_source_clingo_model_conflict_asserts.
 Print Assumptions C09_trap_program_min.
 Print Assumptions C09_trap_program_fix.
 Print Assumptions C09_trap_program_max.
